@@ -162,10 +162,14 @@ Definition srun (h : N) (es : list sevent) : scen :=
   fold_left sstep es {| g := ginit; buffered := 0; hwm := h; tpaused := false; clock := 0;
                         started := []; sizes := [] |}.
 
+(* writers whose deadlines fall on the same instant time out in timer order, which has no meaning: compared as sets *)
+Definition same_members (a b : list N) : bool :=
+  Nat.eqb (length a) (length b) && forallb (fun x => memN x b) a && forallb (fun x => memN x a) b.
+
 (* observed: the order of messages on the fake transport, those written while it reported full,
    the writers that timed out, whether the transport is reading at the end *)
 Definition c15_ok (x : N * list sevent * list N * list N * list N * bool) : bool :=
   let '(h, es, obs_wire, obs_blind, obs_timeouts, obs_reading) := x in
   let s := run_released 200 (srun h es) in
   list_eqb N.eqb (wire (g s)) obs_wire && list_eqb N.eqb (blind (g s)) obs_blind &&
-  list_eqb N.eqb (timed_out (g s)) obs_timeouts && Bool.eqb (reading (g s)) obs_reading.
+  same_members (timed_out (g s)) obs_timeouts && Bool.eqb (reading (g s)) obs_reading.
